@@ -28,7 +28,7 @@ use tokio::runtime::Runtime;
 
 use crate::common::*;
 
-const GRACE: u64 = 4_000_000_000_000; // never-registered links stay inside their start-up grace
+const GRACE: u64 = 9_000_000; // never-registered links stay inside their start-up grace
 
 #[derive(Clone, Debug)]
 pub enum Op {
@@ -204,7 +204,7 @@ impl World {
     /// perturb state the reference algorithm must not look at
     fn noise(&mut self, salt: u64) {
         let mut r = Rng::new(salt);
-        let now = 1_000_000 + r.below(3_000_000);
+        let now = 10_000 + r.below(30_000);
         for c in self.conns.iter_mut() {
             if r.chance(1, 2) {
                 c.congestion.nak_count = r.range(0, 500) as i32;
@@ -330,7 +330,7 @@ impl World {
         }
     }
 
-    /// (fast scalars, (sorted log keys, queued seqs, quality multiplier)) per link
+    /// (fast scalars, "keys queue q" as three Coq arguments) per link
     pub fn obs(&self) -> Vec<(String, String)> {
         self.conns.iter().map(|c| {
             let fast = zlist(vec![
@@ -343,14 +343,14 @@ impl World {
             let mut keys: Vec<i128> = c.packet_log.keys().map(|&k| k as i128).collect();
             keys.sort();
             let q: Vec<i128> = c.batch_sender.verif_queue().iter().map(|(_, s, _)| s.map(|v| v as i128).unwrap_or(-1)).collect();
-            let slow = format!("({},{},{})", zlist(keys), zlist(q), flt(c.verif_hidden().quality_multiplier));
+            let slow = format!("{} {} {}", zlist(keys), zlist(q), flt(c.verif_hidden().quality_multiplier));
             (fast, slow)
         }).collect()
     }
 }
 
 // ---------------------------------------------------------------- cases
-fn lobs_lit(o: &(String, String)) -> String { format!("({},{})", o.0, o.1) }
+fn lobs_lit(o: &(String, String)) -> String { format!("LI {} {}", o.0, o.1) }
 
 pub struct CaseOut { pub text: String, pub panicked: bool, pub anomalies: u64 }
 
@@ -371,15 +371,16 @@ pub fn run_case(rt: &Runtime, n: usize, seed: u64, mut next: impl FnMut(&World, 
         let r = std::panic::catch_unwind(std::panic::AssertUnwindSafe(|| w.apply(rt, &o)));
         let (chosen, sent) = match r {
             Ok(x) => x,
-            Err(_) => { panicked = true; steps.push(format!("({},(-9,[],[],[]))", op_lit(&o, &[]))); break; }
+            Err(_) => { panicked = true; steps.push(format!("ST ({}) (-9) [] [] []", op_lit(&o, &[]))); break; }
         };
         if chosen < -1 { anomalies += 1; }
         let cur = w.obs();
         let bs = w.batch_sizes();
-        let fasts: Vec<String> = cur.iter().map(|c| c.0.clone()).collect();
+        let fasts: Vec<String> = cur.iter().enumerate().filter(|(i, c)| prev.get(*i).map(|p| p.0 != c.0).unwrap_or(true))
+            .map(|(i, c)| format!("FD {} {}", i, c.0)).collect();
         let slows: Vec<String> = cur.iter().enumerate().filter(|(i, c)| prev.get(*i).map(|p| p.1 != c.1).unwrap_or(true))
-            .map(|(i, c)| format!("({},{})", i, c.1)).collect();
-        steps.push(format!("({},({},{},[{}],[{}]))", op_lit(&o, &bs), z(chosen), zlist(sent), fasts.join(";"), slows.join(";")));
+            .map(|(i, c)| format!("SD {} {}", i, c.1)).collect();
+        steps.push(format!("ST ({}) {} {} [{}] [{}]", op_lit(&o, &bs), z(chosen), zlist(sent), fasts.join(";"), slows.join(";")));
         prev = cur;
     }
     verif_clock::set(None);
@@ -395,7 +396,7 @@ fn fixed(ops: Vec<Op>) -> impl FnMut(&World, usize) -> Option<Op> {
 /// F5 witness (DESIGN §8): link 1 has the better score, a retransmit-flagged / critical-window
 /// packet must still go to it.  Kept as a regression case on every run.
 fn corpus() -> Vec<(usize, Vec<Op>)> {
-    let t = 1_000_000u64;
+    let t = 1_000u64;
     let mut f5 = vec![Op::Up(0, t), Op::Up(1, t), Op::SetWindow(0, 10_000), Op::SetWindow(1, 40_000)];
     f5.push(Op::Pkt(Some(7), false, t + 1, 5000));
     f5.push(Op::Pkt(Some(8), true, t + 2, 5000));
@@ -442,7 +443,7 @@ struct Gen { rng: Rng, n: usize, now: u64, next_seq: u32, len: usize, tmo: u64, 
 impl Gen {
     fn new(mut rng: Rng, n: usize, len: usize) -> Gen {
         let next_seq = match rng.below(5) { 0 => 0, 1 => 16_384 * 2 - 20, 2 => 0x7fff_ffff - 5000, _ => rng.below(1 << 30) as u32 };
-        let now = 1_000_000 + rng.below(1_000_000);
+        let now = 1_000 + rng.below(2_000);
         let tmo = *rng.pick(&TMO);
         Gen { rng, n, now, next_seq, len, tmo, recent: vec![] }
     }
@@ -582,11 +583,11 @@ pub fn run(seed: u64, tier: &str, out: &std::path::Path, _extra: &[(String, Stri
         run.push("corpus", true, c.text);
     }
     let mut rng = Rng::new(seed ^ 0xC10C_10C1_0000_0000);
-    let ncases = if run.thorough() { 4000 } else { 400 };
+    let ncases = if run.thorough() { 2500 } else { 250 };
     let mut counts: std::collections::BTreeMap<String, u64> = Default::default();
     for k in 0..ncases {
         let n = 1 + (rng.below(4) as usize);
-        let len = 3 * n + *rng.pick(&[10usize, 25, 40, 60, 90]);
+        let len = 3 * n + *rng.pick(&[10usize, 25, 40, 60, 80]);
         let mut g = Gen::new(rng.fork(k as u64), n, len);
         let c = run_case(&rt, n, seed ^ k as u64, |w, i| g.next(w, i),
                          |o| { *counts.entry(format!("op:{}", op_kind(o))).or_insert(0) += 1; });
